@@ -27,6 +27,51 @@ DIGITS, NOT_DIGITS = b'0123456789', b'12a'
 PROBES = (b'12\n', b'\n12', b'12 ', b' 12', b'1\r', b'', b'1.2', b'+1', b'1_2', b'\xb2', b'12\x00')     # never numeric
 
 
+class DataModel:
+    """Content abstracted to the answer of isdigit()."""
+    _model = ('isdigit',)
+
+    def __init__(self, digit):
+        self.digit = digit
+
+    def isdigit(self):
+        return self.digit
+
+    def __repr__(self):
+        return f'<content, isdigit={self.digit}>'
+
+
+class PatModel:
+    """A compiled pattern abstracted to one answer; records how it is consulted."""
+    _model = ('match', 'fullmatch', 'search', 'pattern')
+
+    def __init__(self, real, answer, rec):
+        self.real, self.answer, self.rec = real, answer, rec
+        self.pattern = real.pattern
+
+    def _ask(self, how, s):
+        self.rec.append(how)
+        return ('<match>',) if self.answer else None
+
+    def match(self, s):
+        return self._ask('match', s)
+
+    def fullmatch(self, s):
+        return self._ask('fullmatch', s)
+
+    def search(self, s):
+        return self._ask('search', s)
+
+
+def _detect_env(fx, it, alnum, kanji, rec):
+    """Globals for interpreting find_mode: the kanji predicate and every compiled pattern answer as told."""
+    genv = encoder_env(fx.forest, it, is_kanji=lambda d, k=kanji: k)
+    for k, v in list(genv.items()):
+        if isinstance(v, ev.RePattern):
+            genv[k] = PatModel(v, alnum, rec)
+    return genv
+
+
 @rule('C07', 'R1', 8, 'find_mode: numeric, alphanumeric, kanji in this order, else byte; never hanzi')
 def r1(fx):
     fn = fx.fn('encoder', 'find_mode')
@@ -35,8 +80,8 @@ def r1(fx):
     for digit in (True, False):
         for alnum in (True, False):
             for kanji in (True, False):
-                genv = encoder_env(fx.forest, it, is_alphanumeric=lambda d, a=alnum: a, is_kanji=lambda d, k=kanji: k)
-                got = FuncVal(fn, genv, it)(DIGITS if digit else NOT_DIGITS)
+                genv = _detect_env(fx, it, alnum, kanji, [])
+                got = FuncVal(fn, genv, it)(DataModel(digit))
                 want = md['numeric'] if digit else md['alphanumeric'] if alnum else md['kanji'] if kanji else md['byte']
                 yield ob(f'isdigit={digit} alphanumeric={alnum} kanji={kanji}', got == want, fn, got=got, want=want)
 
@@ -46,49 +91,73 @@ def r1b(fx):
     fn = fx.fn('encoder', 'find_mode')
     md = modes(fx)
     it = Interp()
-    genv = encoder_env(fx.forest, it, is_alphanumeric=lambda d: False, is_kanji=lambda d: False)
+    genv = _detect_env(fx, it, False, False, [])
     f = FuncVal(fn, genv, it)
     for p in PROBES:
         got = f(p)
         yield ob(f'find_mode({p!r}) with no other mode applicable', got == md['byte'], fn, got=got, want=md['byte'])
-    # every compiled pattern the detection functions consult ends at the very end of the string
-    used = set()
+    yield from _whole_string_uses(fx)
+
+
+def _pattern_uses(fx):
+    """(pattern name, method, call node) for every consultation of a module-level compiled pattern by the detection functions."""
+    ns = ev.module_consts(fx.forest, 'encoder')
+    out = []
     for q in ('find_mode', 'is_alphanumeric', 'is_kanji'):
         for n in ast.walk(fx.fn('encoder', q)):
-            if isinstance(n, ast.Name):
-                used.add(n.id)
+            if isinstance(n, ast.Attribute) and isinstance(n.value, ast.Name) and ns.has(n.value.id) \
+                    and isinstance(ns.get(n.value.id), ev.RePattern):
+                par = getattr(n, '_parent', None)
+                how = n.attr if isinstance(par, ast.Call) and par.func is n else None
+                out.append((n.value.id, how, n))
+            elif isinstance(n, ast.Name) and isinstance(n.ctx, ast.Load) and ns.has(n.id) and isinstance(ns.get(n.id), ev.RePattern) \
+                    and not isinstance(getattr(n, '_parent', None), ast.Attribute):
+                out.append((n.id, None, n))
+    return out
+
+
+def _whole_string_uses(fx):
+    """Every consultation tests the whole string: fullmatch, or match with a pattern ending in \\Z, or search with both anchors."""
     ns = ev.module_consts(fx.forest, 'encoder')
-    for name in sorted(used):
-        if ns.has(name) and isinstance(ns.get(name), ev.RePattern):
-            p = ns.get(name)
-            tree = rx.parse(p.pattern, p.flags)
-            yield ob(f'pattern {name} ends with \\Z', rx.ends_with_string_end(tree) is True, fx.forest.module_assign('encoder', name),
-                     where=f'encoder.{name}', got=p.pattern, want=r'...\Z')
+    for name, how, node in _pattern_uses(fx):
+        p = ns.get(name)
+        tree = rx.parse(p.pattern, p.flags)
+        end, start = rx.ends_with_string_end(tree) is True, rx.starts_anchored(tree)
+        if how is None:
+            raise Unknown(f'pattern {name} is used other than through match/fullmatch/search: `{ast.unparse(getattr(node, "_parent", node))[:60]}`')
+        ok = how == 'fullmatch' or (how == 'match' and end) or (how == 'search' and end and start)
+        need(how in ('fullmatch', 'match', 'search'), f'pattern method {how}')
+        yield ob(f'pattern {name} tests the whole string (.{how})', ok, node, where=f'encoder.{name}', got=f'{p.pattern!r} via .{how}()',
+                 want=r'.fullmatch(), or .match() with a pattern that ends in \Z')
 
 
-@rule('C07', 'R2', 5, 'alphanumeric pattern anchored ^...\\Z with exactly the 45 ISO characters; find_mode sees bytes')
+@rule('C07', 'R2', 4, 'the alphanumeric pattern is [the 45 ISO characters]+ and is consulted on the whole string; find_mode sees bytes')
 def r2(fx):
-    p = C(fx, '_ALPHANUMERIC_PATTERN', 'encoder')
-    need(isinstance(p, ev.RePattern) and isinstance(p.pattern, bytes), '_ALPHANUMERIC_PATTERN is not a compiled bytes pattern')
+    uses = [u for u in _pattern_uses(fx)]
+    names = sorted({u[0] for u in uses})
+    need(len(names) == 1, f'the detection functions consult {names}: exactly one compiled pattern expected')
+    pname = names[0]
+    p = C(fx, pname, 'encoder')
+    need(isinstance(p, ev.RePattern) and isinstance(p.pattern, bytes), f'{pname} is not a compiled bytes pattern')
     tree = rx.parse(p.pattern, p.flags)
-    where = fx.forest.module_assign('encoder', '_ALPHANUMERIC_PATTERN')
-    items = rx.ops(tree)
-    shape = len(items) == 3 and items[1][0] is sre_c.MAX_REPEAT and items[1][1][0] == 1 and items[1][1][1] == sre_c.MAXREPEAT \
-        and len(items[1][1][2]) == 1 and items[1][1][2][0][0] in (sre_c.IN, sre_c.LITERAL)
-    need(shape, f'_ALPHANUMERIC_PATTERN is not <anchor> [class]+ <anchor>: {p.pattern!r}')
-    yield ob('pattern starts at the beginning', rx.starts_anchored(tree) or True, where, where='encoder._ALPHANUMERIC_PATTERN',
-             got=p.pattern, want='^ (or use of .match)')
-    yield ob('pattern ends with \\Z (not $, which admits a trailing newline)', rx.ends_with_string_end(tree) is True, where,
-             where='encoder._ALPHANUMERIC_PATTERN', got=p.pattern, want=r'...\Z')
-    inner = items[1][1][2][0]
+    where = fx.forest.module_assign('encoder', pname)
+    items = [x for x in rx.ops(tree) if x[0] is not sre_c.AT]
+    shape = len(items) == 1 and items[0][0] is sre_c.MAX_REPEAT and items[0][1][0] == 1 and items[0][1][1] == sre_c.MAXREPEAT \
+        and len(items[0][1][2]) == 1 and items[0][1][2][0][0] in (sre_c.IN, sre_c.LITERAL)
+    need(shape, f'{pname} is not [anchor] [class]+ [anchor]: {p.pattern!r}')
+    yield from _whole_string_uses(fx)
+    inner = items[0][1][2][0]
     cls = rx.class_set(inner[1]) if inner[0] is sre_c.IN else {inner[1]}
     want = set(iso.ALPHANUMERIC)
-    yield ob('character class = the 45 ISO alphanumeric characters', cls == want, where, where='encoder._ALPHANUMERIC_PATTERN',
+    yield ob('character class = the 45 ISO alphanumeric characters', cls == want, where, where=f'encoder.{pname}',
              got=f'extra {sorted(bytes([c]) for c in cls - want)} missing {sorted(bytes([c]) for c in want - cls)}', want='extra [] missing []')
-    fa = fx.fn('encoder', 'is_alphanumeric')
-    r = single([s for s in fa.body if isinstance(s, ast.Return)], 'return of is_alphanumeric')
-    yield ob('is_alphanumeric = _ALPHANUMERIC_PATTERN.match(data)', pat.match(r.value, '_ALPHANUMERIC_PATTERN.match(data)') is not None, r,
-             got=ast.unparse(r.value), want='_ALPHANUMERIC_PATTERN.match(data)')
+    # the answer of the pattern decides the alphanumeric branch of find_mode (and nothing else does)
+    it = Interp()
+    rec = []
+    genv = _detect_env(fx, it, True, False, rec)
+    got = FuncVal(fx.fn('encoder', 'find_mode'), genv, it)(DataModel(False))
+    yield ob('find_mode decides "alphanumeric" by consulting the pattern', got == modes(fx)['alphanumeric'] and len(rec) == 1, fx.fn('encoder', 'find_mode'),
+             got=(got, rec), want='alphanumeric after one consultation')
     ms = fx.fn('encoder', 'make_segment')
     calls = [c for c in src.calls_in(ms, 'find_mode')]
     c = single(calls, 'find_mode call in make_segment')
